@@ -3,7 +3,7 @@
 quick check against them: all must exit 0. usage: tools/try_refactor.py <dir with patchN.diff> [props...]"""
 import json, os, re, subprocess, sys
 VERIF = os.path.dirname(os.path.dirname(os.path.abspath(__file__)))
-WT = '/tmp/refactor_wt'
+WT = os.environ.get('REFACTOR_WT', '/tmp/refactor_wt')
 
 
 def sh(cmd):
